@@ -68,6 +68,7 @@ type c15Issued struct {
 	// what the token ITSELF carries when it is self-contained (a JWT access token, an ID token): its own claims
 	form             string // "opaque" | "jwt" | "id" | ""
 	jsub, jact, jsrc string // sub, act.sub, and which storage hook supplied the claims (c15_src / c15_ui_src)
+	jactv            string // deep5: the WHOLE act member of the token (canonical JSON, nested members and all; "" = absent)
 }
 
 func c15Act(m map[string]any) string {
@@ -116,7 +117,7 @@ func c15Classify(bed *opbed.Bed, tok string) c15Issued {
 	sub, _ := m["sub"].(string)
 	if jti, _ := m["jti"].(string); jti != "" {
 		if is, ok := stored(jti); ok {
-			is.form, is.jsub, is.jact = "jwt", sub, c15Act(m)
+			is.form, is.jsub, is.jact, is.jactv = "jwt", sub, c15Act(m), c15Canon(m["act"])
 			is.jsrc, _ = m[c15SrcClaim].(string)
 			// live at the provider = known to the storage AND accepted by the provider's own access-token verifier (issuer, signature, times)
 			ctx := op.ContextWithIssuer(context.Background(), opbed.Issuer)
@@ -143,7 +144,7 @@ func c15Classify(bed *opbed.Bed, tok string) c15Issued {
 	ctx := op.ContextWithIssuer(context.Background(), opbed.Issuer)
 	_, verr := op.VerifyIDTokenHint[*oidc.IDTokenClaims](ctx, tok, bed.Provider.IDTokenHintVerifier(ctx))
 	return c15Issued{kind: "id", live: iss == opbed.Issuer && int64(exp) > time.Now().Unix() && verr == nil, subject: sub, audience: aud,
-		form: "id", jsub: sub, jact: c15Act(m), jsrc: uisrc}
+		form: "id", jsub: sub, jact: c15Act(m), jsrc: uisrc, jactv: c15Canon(m["act"])}
 }
 
 // ---------------------------------------------------------------- one case
@@ -176,6 +177,8 @@ type c15Spec struct {
 	auser string // whose token the actor token is ("" = actor1)
 	pol   string // the exchange storage's policy: "check" (reference: an access token's id must be live in the store) | "trust" (the
 	// repository's example storage: the framework's resolution is taken as it is, no lookup of the id)
+	// deep5
+	actpol string // the exchange storage's policy for the `act` member of the issued token (c15ActModes; "" = by case number)
 }
 
 // users whose subject identifier contains ':' (namespaced / URN / DID style); the part after the last colon is the id of ANOTHER known user
@@ -387,6 +390,33 @@ func c15Fixed() []c15Spec {
 	add("colon-impersonated", func(s *c15Spec) { s.scopes = []string{"openid", refstore.ImpersonateScopePrefix + "corp:user2"} })
 	add("trusting-policy:plain", func(s *c15Spec) { s.pol = "trust" })
 	add("trusting-policy:delegation", func(s *c15Spec) { s.pol, s.akind = "trust", "opaque-at" })
+	// ---- deep5: the storage policy's decision about the `act` member x every way an issued token has claims (JWT access token alone / next
+	// to a refresh token, ID token) x {delegation, impersonation, both, delegation by a colon user, a third-party actor, a chained actor token}
+	for _, mode := range c15ActModes {
+		mode := mode
+		for _, tk := range []struct {
+			lab, req string
+			jwt      bool
+		}{{"jwt-at", ttAccess, true}, {"jwt-at+rt", ttRefresh, true}, {"id", ttID, false}, {"id:jwt-client", ttID, true}} {
+			tk := tk
+			lab := "act-policy:" + mode + ":" + tk.lab
+			add(lab+":delegation", func(s *c15Spec) { s.actpol, s.requested, s.reg.jwtAT, s.akind = mode, tk.req, tk.jwt, "opaque-at" })
+			add(lab+":delegation:pc+ui", func(s *c15Spec) {
+				s.actpol, s.requested, s.reg.jwtAT, s.akind, s.capPC, s.capUI = mode, tk.req, tk.jwt, "jwt-at", true, true
+			})
+			add(lab+":impersonation", func(s *c15Spec) { s.actpol, s.requested, s.reg.jwtAT, s.scopes = mode, tk.req, tk.jwt, imp })
+			add(lab+":delegation+impersonation", func(s *c15Spec) {
+				s.actpol, s.requested, s.reg.jwtAT, s.akind, s.scopes = mode, tk.req, tk.jwt, "id", imp
+			})
+		}
+		add("act-policy:"+mode+":jwt-at:colon-actor", func(s *c15Spec) {
+			s.actpol, s.reg.jwtAT, s.akind, s.auser, s.pol = mode, true, "jwt-at", "corp:user2", "trust"
+		})
+		add("act-policy:"+mode+":id:tp-actor", func(s *c15Spec) { s.actpol, s.requested, s.akind = mode, ttID, "tp-actor-only" })
+		add("act-policy:"+mode+":jwt-at:chained-actor", func(s *c15Spec) { s.actpol, s.reg.jwtAT, s.akind = mode, true, "xchg-at" })
+		add("act-policy:"+mode+":opaque:delegation", func(s *c15Spec) { s.actpol, s.akind = mode, "opaque-at" })
+		add("act-policy:"+mode+":jwt-at:no-actor", func(s *c15Spec) { s.actpol, s.reg.jwtAT = mode, true })
+	}
 	return out
 }
 
@@ -541,12 +571,21 @@ func c15Stream(r *hx.Rand, tier string, n int, w *bufio.Writer) map[string]int {
 		if sp.auser == "" {
 			sp.auser = "actor1"
 		}
+		// deep5: the act policy of a random case is a function of its number (no draw: the random sequence of rounds 3-4 is kept);
+		// 3 in 8 cases keep the flat policy of the earlier rounds, as do their named shapes
+		if sp.actpol == "" {
+			sp.actpol = []string{"flat", "chain", "pairwise", "flat", "extra", "none", "flat", "chain"}[(i+i/8)%8]
+			if i < len(fixed) {
+				sp.actpol = "flat"
+			}
+		}
+		journal := &c15Journal{}
 		// the verifier table's shadow entry presupposes that the provider resolves its own token (see sshadow): not for subjects with ':'
 		sp.sshadow, sp.ashadow = sp.sshadow && !c15HasColon(sp.user), sp.ashadow && !c15HasColon(sp.auser)
 		bed, err := opbed.New(opbed.Config{Router: sp.router, S256: true, Post: true, PrivateKeyJWT: true, Refresh: true,
 			Caps: refstore.Caps{CC: true, TE: sp.capTE, TEVerifier: sp.capTEV, Device: true, UserinfoFromReq: sp.capUI},
 			StorageFn: func(st *refstore.Store) op.Storage {
-				return c15Storage(st, c15Caps{TE: sp.capTE, TEV: sp.capTEV, PC: sp.capPC, UI: sp.capUI, Trust: sp.pol == "trust"})
+				return c15Storage(st, c15Caps{TE: sp.capTE, TEV: sp.capTEV, PC: sp.capPC, UI: sp.capUI, Trust: sp.pol == "trust", Act: sp.actpol, J: journal})
 			}})
 		if err != nil {
 			panic(err)
@@ -675,7 +714,7 @@ func c15Stream(r *hx.Rand, tier string, n int, w *bufio.Writer) map[string]int {
 			form.Add("resource", a)
 		}
 		l := hx.NewLine("C15").I("case", int64(i)).S("router", sp.router).B("cap.te", sp.capTE).B("cap.tev", sp.capTEV).B("cap.pc", sp.capPC).B("cap.ui", sp.capUI).
-			B("px.jwt", sp.reg.jwtAT).S("issuer", opbed.Issuer).S("pol", sp.pol).
+			B("px.jwt", sp.reg.jwtAT).S("issuer", opbed.Issuer).S("pol", sp.pol).S("actpol", sp.actpol).
 			B("post", true).B("pkjwt", true).B("refresh", true).B("cap.cc", true).B("cap.device", true).S("st.default", sp.storeDefault)
 		if sp.fixed != "" {
 			l.S("fixed", sp.fixed)
@@ -742,6 +781,7 @@ func c15Stream(r *hx.Rand, tier string, n int, w *bufio.Writer) map[string]int {
 		l.L("live", liveIDs)
 
 		bed.Store.LastExchange = nil
+		*journal = c15Journal{} // the earlier exchanges of a history (xchg-* kinds) wrote into it
 		t0 := time.Now()
 		resp := bed.Do(bed.Form("/oauth/token", form, auth))
 		l.I("now0", t0.UnixNano()).I("now1", time.Now().UnixNano())
@@ -755,6 +795,8 @@ func c15Stream(r *hx.Rand, tier string, n int, w *bufio.Writer) map[string]int {
 			l.S("obs", "ok").S("o.issued", resp.Str("issued_token_type")).S("o.at", is.kind).B("o.atlive", is.live).S("o.sub", is.subject).L("o.aud", is.audience)
 			// the token's own claims (a JWT access token / an ID token is self-contained): subject, actor, which hook supplied them
 			l.S("o.form", is.form).S("o.jsub", is.jsub).S("o.jact", is.jact).S("o.src", is.jsrc)
+			// deep5: the token's whole act member, and what the exchange storage's claims hook answered for THIS request (journal)
+			l.S("o.jactv", is.jactv).B("o.pasked", journal.Asked).S("o.phook", journal.Hook).S("o.pact", journal.Act)
 			if rt := resp.Str("refresh_token"); rt != "" {
 				rec := bed.Store.Refresh(rt)
 				l.B("o.rt", true).B("o.rtlive", rec != nil && rec.Expiration.After(time.Now()))
@@ -779,6 +821,7 @@ func c15Stream(r *hx.Rand, tier string, n int, w *bufio.Writer) map[string]int {
 		stats[fmt.Sprintf("presenter-te%d-rt%d-%s", b2i(sp.reg.te), b2i(sp.reg.rt), sp.reg.auth)]++
 		stats["cred-"+sp.cred]++
 		stats["policy-"+sp.pol]++
+		stats["act-policy-"+sp.actpol]++
 		stats[fmt.Sprintf("colon-in-subject%d-actor%d/%s", b2i(c15HasColon(sp.user)), b2i(sp.akind != "none" && c15HasColon(sp.auser)), c15Outcome(resp.Status))]++
 		if c15HasColon(sp.user) {
 			stats["colon-subject-"+sp.skind+"/"+sp.pol+"/"+c15Outcome(resp.Status)]++
@@ -793,6 +836,18 @@ func c15Stream(r *hx.Rand, tier string, n int, w *bufio.Writer) map[string]int {
 		if resp.Status == 200 {
 			is := c15Classify(bed, resp.Str("access_token"))
 			stats["issued-"+is.form+"/claims-from-"+is.jsrc+"/act-"+c15ActClass(is.jact, sSub, aSub)]++
+			if is.form == "jwt" || is.form == "id" {
+				flow := "plain"
+				switch {
+				case sp.akind != "none" && impersonated != "":
+					flow = "delegation+impersonation"
+				case sp.akind != "none":
+					flow = "delegation"
+				case impersonated != "":
+					flow = "impersonation"
+				}
+				stats["act-policy-"+sp.actpol+"/"+is.form+"/"+flow+"/token-act-"+c15ActShape(is.jactv, journal)]++
+			}
 		}
 		stats["requested-"+c15Short(sp.requested)+"/default-"+c15Short(sp.storeDefault)]++
 		if subj.isTP {
@@ -826,6 +881,19 @@ func c15ActClass(act, subjectSub, actorSub string) string {
 		return "exchange-subject"
 	}
 	return "other"
+}
+
+// c15ActShape: the token's act member against what the claims hook answered for this request
+func c15ActShape(act string, j *c15Journal) string {
+	switch {
+	case !j.Asked:
+		return "hook-not-asked"
+	case act == j.Act && act == "":
+		return "none-as-decided"
+	case act == j.Act:
+		return "as-decided"
+	}
+	return "NOT-as-decided"
 }
 
 func c15Outcome(status int) string {
